@@ -363,11 +363,56 @@ def r6_condense_add(ctx):
     ctx.check(good, f, f.node, "profiles are equal iff their condensed ballots contain each other", "", "PreferenceProfile.__eq__ is not mutual containment of condensed ballots")
 
 
+def r7_dict_views(ctx):
+    """to_ballot_dict / to_ranking_dict / to_scores_dict: every ballot's weight lands under its content key."""
+    prog = ctx.prog
+    for name, keyform in (("to_ballot_dict", "ballot"), ("to_ranking_dict", "ranking"), ("to_scores_dict", "scores")):
+        f = prog.find_func(f"PreferenceProfile.{name}")
+        pm = astx.parents(f.node)
+        loops = [n for n in astx.walk_own(f.node) if isinstance(n, ast.For) and astx.u(n.iter) == "self.ballots"]
+        if len(loops) != 1:
+            ctx.violated(f, f.node, f"{name}: one pass over all ballots", f"{len(loops)} loops over self.ballots")
+            continue
+        lp = loops[0]
+        b = astx.u(lp.target)
+        no_skip = not any(isinstance(n, (ast.Continue, ast.Break, ast.Return)) for n in ast.walk(lp))
+        N = Normalizer(f.node, inline=False)
+        wdefs = {bool_key(N.conj(astx.path_condition(f.node, st, pm, carried=False))): astx.u(dv) for st, dv in astx.defs_of(f.node, "weight") if dv is not None}
+        tot = astx.unique_def(f.node, "tot_weight")
+        okw = wdefs == {"truthy(standardize)": f"{b}.weight / tot_weight", "not truthy(standardize)": f"{b}.weight"} and tot is not None and astx.u(tot) == "self.total_ballot_wt"
+        stores = [n for n in astx.walk_own(lp) if isinstance(n, (ast.Assign, ast.AugAssign)) and isinstance((n.targets[0] if isinstance(n, ast.Assign) else n.target), ast.Subscript)]
+        oks = len(stores) == 2
+        key = None
+        if oks:
+            init = [n for n in stores if isinstance(n, ast.Assign)]
+            acc = [n for n in stores if isinstance(n, ast.AugAssign)]
+            oks = len(init) == 1 and len(acc) == 1 and astx.u(init[0].value) == "weight" and astx.u(acc[0].value) == "weight" and isinstance(acc[0].op, ast.Add) \
+                and astx.u(init[0].targets[0]) == astx.u(acc[0].target)
+            if oks:
+                key = astx.u(init[0].targets[0].slice)
+                li = literals(N.conj(astx.path_condition(f.node, init[0], pm, carried=False)))
+                la = literals(N.conj(astx.path_condition(f.node, acc[0], pm, carried=False)))
+                d_ = astx.u(init[0].targets[0].value)
+                oks = li == {f"not in({key}, {d_}.keys())"} and la == {f"in({key}, {d_}.keys())"}
+        okk = False
+        if key:
+            kd = [dv for st, dv in astx.defs_of(f.node, key) if dv is not None]
+            if keyform == "ballot":
+                okk = len(kd) == 1 and astx.u(kd[0]) == f"Ballot(ranking={b}.ranking, scores={b}.scores)"
+            elif keyform == "ranking":
+                okk = {astx.u(x) for x in kd} == {f"{b}.ranking", "(frozenset(),)"}
+            else:
+                okk = {astx.u(x) for x in kd} == {f"tuple([(c, score) for c, score in {b}.scores.items()])", "tuple()"}
+        ctx.check(no_skip and okw and oks and okk, f, lp, f"{name}: weight (or weight/total) of every ballot accumulates under its {keyform} key", f"key={key}, weights={wdefs}",
+                  f"{name}: every ballot visited={no_skip}; weight source ok={okw} ({wdefs}); first-store / += accumulate ok={oks}; key is the ballot's {keyform} content={okk}")
+
+
 RULES = [
     ("C11.R1", r1_frozen, 10, "frozen declarations; object.__setattr__ only in PreferenceProfile after-validators; no other field stores"),
     ("C11.R2", r2_validators, 8, "weight/scores before-validators convert to Fraction(x).limit_denominator(); TypeError; zero scores dropped"),
     ("C11.R3", r3_derived, 8, "num_ballots / total_ballot_wt / candidates_cast / default candidates formulas"),
     ("C11.R5", r5_eq_hash, 6, "eq/hash contract of Ballot for the fields that dict-key ballots carry"),
+    ("C11.R7", r7_dict_views, 3, "to_ballot_dict / to_ranking_dict / to_scores_dict accumulate each ballot's weight under its content key"),
     ("C11.R6", r6_condense_add, 8, "condense key/accumulate/rebuild; __add__ concatenation; profile equality"),
 ]
 
@@ -390,6 +435,11 @@ FAULTS = [
     ("condense loses candidates", [(PP, "            ballots=tuple(new_ballot_list), candidates=self.candidates\n", "            ballots=tuple(new_ballot_list)\n")], "C11.R6"),
     ("add drops other's ballots when equal", [(PP, "            ballots = self.ballots + other.ballots\n", "            ballots = self.ballots + tuple(b for b in other.ballots if b not in self.ballots)\n")], "C11.R6"),
     ("profile eq one-sided", [(PP, "        for b in pp_2.ballots:\n            if b not in pp_1.ballots:\n                return False\n", "")], "C11.R6"),
+]
+FAULTS += [
+    ("ranking dict overwrites instead of adding", [(PP, "            if ranking not in di.keys():\n                di[ranking] = weight\n            else:\n                di[ranking] += weight", "            if ranking not in di.keys():\n                di[ranking] = weight\n            else:\n                di[ranking] = weight")], "C11.R7"),
+    ("ballot dict standardises by ballot count", [(PP, "        tot_weight = self.total_ballot_wt\n        di: dict = {}\n        for ballot in self.ballots:\n            weightless_ballot", "        tot_weight = self.num_ballots\n        di: dict = {}\n        for ballot in self.ballots:\n            weightless_ballot")], "C11.R7"),
+    ("scores dict skips unscored ballots", [(PP, "            else:\n                scores = tuple()\n            if standardize:", "            else:\n                continue\n            if standardize:")], "C11.R7"),
 ]
 BENIGN = [
     ("scores compare flipped", [(BL, "        if self.scores != other.scores:\n            return False", "        if not (other.scores == self.scores):\n            return False")]),
